@@ -321,6 +321,7 @@ func (q *queryExecution) createGQLErrors(step *QueryPlanStep, err error) gqlerro
 			Locations: locs,
 			Extensions: map[string]interface{}{
 				"selectionSet": formatSelectionSetSingleLine(q.ctx, q.schema, step.SelectionSet),
+				"serviceUrl":   step.ServiceURL,
 			},
 			Rule: "",
 		})
@@ -333,6 +334,7 @@ func (q *queryExecution) createGQLErrors(step *QueryPlanStep, err error) gqlerro
 			Locations: locs,
 			Extensions: map[string]interface{}{
 				"selectionSet": formatSelectionSetSingleLine(q.ctx, q.schema, step.SelectionSet),
+				"serviceUrl":   step.ServiceURL,
 			},
 			Rule: "",
 		})
